@@ -185,3 +185,85 @@ func runSeeds(repo, verif, prop string, rules []string, tier string, base map[st
 	}
 	return out
 }
+
+// overlayFromDiff applies a unified diff to the files of repo in memory.
+func overlayFromDiff(repo, diff string) (map[string][]byte, error) {
+	overlay := map[string][]byte{}
+	for file, hs := range parseUnifiedDiff(diff) {
+		full := filepath.Join(repo, file)
+		src, err := os.ReadFile(full)
+		if err != nil {
+			return nil, err
+		}
+		ns, err := applyHunks(string(src), hs)
+		if err != nil {
+			return nil, fmt.Errorf("%s: %v", file, err)
+		}
+		overlay[full] = []byte(ns)
+	}
+	return overlay, nil
+}
+
+// ControlResult is the outcome of replaying one stored behaviour-preserving
+// refactoring (negative control): the rules must stay silent on it.
+type ControlResult struct {
+	ID      string   `json:"id"`
+	Outcome string   `json:"outcome"` // control-silent, control-alarm, skipped
+	By      []string `json:"by,omitempty"`
+	Note    string   `json:"note,omitempty"`
+}
+
+// runControls replays /verif/refactors/*/all.diff (sets of behaviour-preserving
+// refactorings written by independent agents) as overlays; any obligation that
+// fails there and not on the base tree is a false alarm of the machinery.
+func runControls(repo, verif string, rules []string, tier string, base map[string]bool) []ControlResult {
+	files, _ := filepath.Glob(filepath.Join(verif, "refactors", "*", "all.diff"))
+	sort.Strings(files)
+	var out []ControlResult
+	for _, df := range files {
+		res := ControlResult{ID: filepath.Base(filepath.Dir(df))}
+		b, err := os.ReadFile(df)
+		if err != nil {
+			continue
+		}
+		overlay, err := overlayFromDiff(repo, string(b))
+		if err != nil {
+			res.Outcome, res.Note = "skipped", "does not apply to the current tree: "+err.Error()
+			out = append(out, res)
+			continue
+		}
+		p, err := Load(repo, overlay)
+		if err != nil {
+			res.Outcome, res.Note = "skipped", "does not type-check on the current tree: "+firstLine(err.Error())
+			out = append(out, res)
+			continue
+		}
+		rep := RunRules(p, tier, rules)
+		seen := map[string]bool{}
+		for _, o := range rep.Obligations {
+			if !o.OK && !o.Known && !base[o.Rule+"|"+o.Construct] && !seen[o.Rule] {
+				seen[o.Rule] = true
+				res.By = append(res.By, o.Rule)
+				if res.Note == "" {
+					res.Note = o.Construct + ": " + o.Detail
+				}
+			}
+		}
+		for _, u := range rep.Undecided {
+			if !seen[u.Rule] {
+				seen[u.Rule] = true
+				res.By = append(res.By, u.Rule)
+				if res.Note == "" {
+					res.Note = "undecided: " + u.Anchor + ": " + u.Why
+				}
+			}
+		}
+		sort.Strings(res.By)
+		res.Outcome = "control-silent"
+		if len(res.By) > 0 {
+			res.Outcome = "control-alarm"
+		}
+		out = append(out, res)
+	}
+	return out
+}
